@@ -105,6 +105,8 @@ class Registry:
         for fn in sorted(os.listdir(CONTRACT_DIR)):
             if fn.endswith(".py") and not fn.startswith("_"):
                 self._load_sidecar(os.path.join(CONTRACT_DIR, fn))
+        for extra in filter(None, os.environ.get("PYVC_EXTRA_CONTRACTS", "").split(":")):
+            self._load_sidecar(extra)          # development only: a sidecar not yet moved into contracts/
         sp = os.path.join(CONTRACT_DIR, "specs")
         if os.path.isdir(sp):
             for fn in sorted(os.listdir(sp)):
@@ -379,6 +381,14 @@ class Registry:
     def _load_sidecar(self, path):
         with open(path, encoding="utf8") as f:
             tree = ast.parse(f.read(), filename=path)
+        # module-level constants of the sidecar (lists of strings / strings), usable in `modifies`
+        self._consts = {}
+        for node in tree.body:
+            if isinstance(node, ast.Assign) and len(node.targets) == 1 and isinstance(node.targets[0], ast.Name):
+                try:
+                    self._consts[node.targets[0].id] = ast.literal_eval(node.value)
+                except Exception:
+                    pass
         for node in tree.body:
             if isinstance(node, ast.Expr) and isinstance(node.value, ast.Call):
                 fn = ast.unparse(node.value.func)
@@ -438,6 +448,16 @@ class Registry:
                 raise ValueError(f"bad clause {ast.unparse(e)}")
         return out
 
+    def _str_list(self, node):
+        """a list of strings written as a literal, a sidecar constant, or a sum of those"""
+        if isinstance(node, ast.List):
+            return [x.value for x in node.elts]
+        if isinstance(node, ast.Name) and isinstance(getattr(self, "_consts", {}).get(node.id), list):
+            return list(self._consts[node.id])
+        if isinstance(node, ast.BinOp) and isinstance(node.op, ast.Add):
+            return self._str_list(node.left) + self._str_list(node.right)
+        raise ValueError(f"list of strings expected in sidecar: {ast.unparse(node)}")
+
     def _parse_contract(self, call: ast.Call, path):
         qual = call.args[0].value
         kw = self._kw(call)
@@ -474,7 +494,7 @@ class Registry:
             return n in kw and isinstance(kw[n], ast.Constant) and bool(kw[n].value)
         c = Contract(qualname=qual, args=args, requires=self._parse_clauses(kw.get("requires"), serves),
                      returns=kw.get("returns"), ensures=self._parse_clauses(kw.get("ensures"), serves),
-                     raises=raises, modifies=[x.value for x in kw["modifies"].elts] if "modifies" in kw else [],
+                     raises=raises, modifies=self._str_list(kw["modifies"]) if "modifies" in kw else [],
                      loops=loops, inline=flag("inline"), trusted=flag("trusted"), generator=flag("generator"),
                      variants=variants, serves=serves, abstract=flag("abstract"), pure=flag("pure"), file=path,
                      bounded_only=kw["bounded_only"].value if "bounded_only" in kw else "",
